@@ -7,6 +7,7 @@ package main
 import (
 	"fmt"
 	"strings"
+	"sync"
 	"sync/atomic"
 )
 
@@ -74,8 +75,86 @@ type Table struct {
 
 var termCounter int64
 
+type internKey struct {
+	op         Op
+	w, aux     int
+	a0, a1, a2 *Term
+	name       string
+	tbl        *Table
+}
+
+const internShards = 64
+
+type internShard struct {
+	mu sync.Mutex
+	m  map[internKey]*Term
+}
+
+var internTab [internShards]internShard
+
+func init() {
+	for i := range internTab {
+		internTab[i].m = map[internKey]*Term{}
+	}
+}
+
+func intern(k internKey, mk func() *Term) *Term {
+	h := uint64(k.op)*1000003 + uint64(k.w)*31 + uint64(k.aux)*17
+	if k.a0 != nil {
+		h = h*1000003 + uint64(k.a0.id)
+	}
+	if k.a1 != nil {
+		h = h*1000003 + uint64(k.a1.id)
+	}
+	if k.a2 != nil {
+		h = h*1000003 + uint64(k.a2.id)
+	}
+	for i := 0; i < len(k.name); i++ {
+		h = h*31 + uint64(k.name[i])
+	}
+	sh := &internTab[h%internShards]
+	sh.mu.Lock()
+	defer sh.mu.Unlock()
+	if t, ok := sh.m[k]; ok {
+		return t
+	}
+	if len(sh.m) > 200000 {
+		sh.m = map[internKey]*Term{}
+	}
+	t := mk()
+	sh.m[k] = t
+	return t
+}
+
+// newTerm creates (or finds) the hash-consed term. Constants are not interned and have id 0,
+// so keys built from them compare by pointer; small constants are cached, others are distinct
+// pointers (which only loses sharing, never soundness).
 func newTerm(op Op, w int, args ...*Term) *Term {
-	return &Term{op: op, w: w, args: args, id: atomic.AddInt64(&termCounter, 1)}
+	k := internKey{op: op, w: w}
+	switch len(args) {
+	case 3:
+		k.a2 = args[2]
+		fallthrough
+	case 2:
+		k.a1 = args[1]
+		fallthrough
+	case 1:
+		k.a0 = args[0]
+	}
+	return intern(k, func() *Term {
+		return &Term{op: op, w: w, args: args, id: atomic.AddInt64(&termCounter, 1)}
+	})
+}
+
+func newTermAux(op Op, w int, aux int, a *Term, tbl *Table) *Term {
+	k := internKey{op: op, w: w, aux: aux, a0: a, tbl: tbl}
+	return intern(k, func() *Term {
+		t := &Term{op: op, w: w, args: []*Term{a}, aux: aux, tbl: tbl, id: atomic.AddInt64(&termCounter, 1)}
+		if tbl != nil {
+			t.name = tbl.name
+		}
+		return t
+	})
 }
 
 func mask(w int) uint64 {
@@ -117,9 +196,9 @@ func mkConst(w int, v uint64) *Term {
 }
 
 func mkVar(name string, w int) *Term {
-	t := newTerm(opVar, w)
-	t.name = name
-	return t
+	return intern(internKey{op: opVar, w: w, name: name}, func() *Term {
+		return &Term{op: opVar, w: w, name: name, id: atomic.AddInt64(&termCounter, 1)}
+	})
 }
 
 func (t *Term) isConst() bool { return t.op == opConst }
@@ -409,9 +488,7 @@ func mkZext(a *Term, w int) *Term {
 	if a.isConst() {
 		return mkConst(w, a.c)
 	}
-	t := newTerm(opZext, w, a)
-	t.aux = w - a.w
-	return t
+	return newTermAux(opZext, w, w-a.w, a, nil)
 }
 
 func mkSext(a *Term, w int) *Term {
@@ -424,9 +501,7 @@ func mkSext(a *Term, w int) *Term {
 	if a.isConst() {
 		return mkConst(w, uint64(sx(a.c, a.w)))
 	}
-	t := newTerm(opSext, w, a)
-	t.aux = w - a.w
-	return t
+	return newTermAux(opSext, w, w-a.w, a, nil)
 }
 
 func mkExtract(a *Term, hi, lo int) *Term {
@@ -441,9 +516,7 @@ func mkExtract(a *Term, hi, lo int) *Term {
 	if (a.op == opZext || a.op == opSext) && lo == 0 && w <= a.args[0].w {
 		return mkExtract(a.args[0], hi, 0)
 	}
-	t := newTerm(opExtract, w, a)
-	t.aux = hi<<8 | lo
-	return t
+	return newTermAux(opExtract, w, hi<<8|lo, a, nil)
 }
 
 func mkTbl(tbl *Table, idx *Term) *Term {
@@ -453,10 +526,7 @@ func mkTbl(tbl *Table, idx *Term) *Term {
 		}
 		return mkConst(tbl.ow, 0)
 	}
-	t := newTerm(opTbl, tbl.ow, idx)
-	t.tbl = tbl
-	t.name = tbl.name
-	return t
+	return newTermAux(opTbl, tbl.ow, 0, idx, tbl)
 }
 
 // ---- evaluation under a model ----
